@@ -150,6 +150,8 @@ pub struct Oracle {
     pub delivered: u32,
     pub rx_size: usize,
     pub cfg_clean_keep: (u16, u32),
+    /// length of the most recent CONNECT offered to a transport (0 = none yet)
+    pub last_connect_len: usize,
 }
 
 impl Oracle {
@@ -173,6 +175,7 @@ impl Oracle {
             delivered: 0,
             rx_size,
             cfg_clean_keep: (0, 0),
+            last_connect_len: 0,
         }
     }
 
@@ -453,6 +456,7 @@ impl Oracle {
                     self.flag("C01", "W1-second-connect", &ctx, "CONNECT is not the first packet".into());
                 }
                 self.conns[c].connect_done = true;
+                self.last_connect_len = raw.len();
                 // C05 S1 / S2
                 let want_clean = !self.connack_ok_seen;
                 if cp.clean_start != want_clean {
